@@ -34,7 +34,8 @@ EXHAUSTIVE_NOTE = 'all 48 poses of a 3x4 grid x all 81 areas within [-2,2]^2 con
 REQUIRED = {'quick': {'obs.checked': 15000, 'exhaustive.cases': 10000, 'cells.shown': 50000, 'cells.outside': 20000,
                       'heading.LEFT': 500, 'heading.RIGHT': 500, 'heading.BACKWARD': 500, 'shipped.obs': 1000,
                       'fn.fully_transparent': 1000, 'fn.partially_occluded': 500, 'fn.raytracing': 1000,
-                      'fn.stochastic_raytracing': 1000, 'fn.parametrised_visibility': 500, 'history_states.compared': 300}}
+                      'fn.stochastic_raytracing': 1000, 'fn.parametrised_visibility': 500, 'history_states.compared': 300, 'views.excluding_agent': 100, 'views.custom_visibility': 100,
+                      'views.large': 4}}
 
 
 def check_observation(ctx, state, area, name, obs, payload_fn, label=''):
@@ -99,6 +100,12 @@ def observe(ctx, state, area, name, via_vis, seed, label=''):
     before = enc.es(state)
     ok, obs = call_real(fn, state, rng=np.random.default_rng(seed))
     ctx.ev()
+    vis = getattr(fn, 'keywords', {}).get('visibility_function')
+    if isinstance(vis, obsgen.ConeVisibility) and not vis.intact():
+        ctx.violation('sound', 'from_visibility.modifies_visibility_mask',
+                      f'{name} area {obsgen.area_json(area)}: from_visibility modified the mask array returned by the user-defined '
+                      f'visibility function (the next observation through it is wrong)', 'obs_case', payload())
+        return
     if not ok:
         ctx.violation('sound', f'obs.raises.{exc_site(obs)}', f'{label}{name} area {obsgen.area_json(area)} raised '
                       f'{describe_exc(obs)}', 'obs_case', payload())
@@ -173,6 +180,36 @@ def history_cases(ctx, n):
                                'hist_key': [ctx.seed, ctx.shard, k]})
 
 
+def unusual_views(ctx, n):
+    """views that do not contain the agent's own cell (fully transparent only: the occluding functions need the agent
+    inside the view), a user-defined visibility function that reuses its mask array, and very large views"""
+    for k in range(n):
+        rng = gen.rng_for('C05unusual', ctx.seed, ctx.shard, k)
+        state, _, cat = obsgen.rand_case(rng, hmax=7, wmax=7)
+        area = obsgen.rand_area_excluding_origin(rng)
+        ctx.hit('views.excluding_agent')
+        observe(ctx, state, area, 'fully_transparent', via_vis=(k % 2 == 0), seed=0)
+        # one-cell windows (the cell in front, behind, to the side)
+        dy, dx = rng.choice([(-1, 0), (1, 0), (0, -1), (0, 1), (-2, 1)])
+        observe(ctx, state, Area((dy, dy), (dx, dx)), 'fully_transparent', via_vis=(k % 2 == 1), seed=0)
+        # user-defined visibility function handing out the same mask array every time
+        area2 = gen.rand_area(rng, maxext=3, require_ymax0=True)
+        observe(ctx, state, area2, 'custom_cone', via_vis=False, seed=0)
+        observe(ctx, obsgen.rotate_state_cw(state), area2, 'custom_cone', via_vis=False, seed=0)
+        ctx.hit('views.custom_visibility')
+    for i, (ys, xs) in enumerate(obsgen.LARGE_AREAS):
+        if not ctx.mine(i):
+            continue
+        rng = gen.rng_for('C05large', ctx.seed, i)
+        area = Area(ys, xs)
+        for rep in range(2):
+            state, _, cat = obsgen.rand_case(rng, hmax=9, wmax=9)
+            for name in ('fully_transparent', 'raytracing', 'partially_occluded', 'stochastic_raytracing'):
+                if obsgen.supported(name, area):
+                    observe(ctx, state, area, name, via_vis=False, seed=rep)
+            ctx.hit('views.large')
+
+
 def shipped(ctx, seeds, steps):
     job = 0
     for name, path, data in compose.shipped_configs():
@@ -215,6 +252,7 @@ def run(ctx):
         exhaustive(ctx)
         random_cases(ctx, ctx.pick(500, 12000))
         history_cases(ctx, ctx.pick(150, 3000))
+        unusual_views(ctx, ctx.pick(150, 2500))
         shipped(ctx, ctx.pick(1, 8), ctx.pick(60, 300))
         ctx.extra['exhaustive'] = True
 
